@@ -191,6 +191,7 @@ def doEnc : List String → String
       match encodeBuf cap p with
       | .ok bs => "ok:" ++ hexOf bs
       | .oom => "oom"
+      | .panic _ => "panic"
     | _, _ => bad
   | _ => bad
 
@@ -275,7 +276,8 @@ def showCov (cov : Array Nat) : String :=
     if n = 0 then none else some s!"{stName (i / 35)}/{clsName (i / 7 % 5)}/{resName (i % 7)}={n}"
   joinSp cells
 
-/-- `dec <cap> <op>*` with ops = byte-string tokens, `F`, `R` -/
+/-- `dec <cap> <op>*` with ops = byte-string tokens (`Op.push` each), `F` (`Op.fin`), `R` (`Op.reset`),
+`N` (`Op.new`), `B<bytes>` (`Op.fromBuf bytes`); all through `Dec.push` / `Dec.step` -/
 def doDec (cov : Array Nat) : List String → String × Array Nat
   | cap :: ops =>
     match parseCap cap with
@@ -291,25 +293,35 @@ def doDec (cov : Array Nat) : List String → String × Array Nat
           match showOut o with
           | none => pushBytes d' idx acc cov bs
           | some s => pushBytes d' idx (s!"{idx}:{s}" :: acc) cov bs
+      -- one non-byte operation through `Dec.step`; the response token is made from its `OpOut`
+      let opTok (idx : Nat) : OpOut → String
+        | .out _ => s!"{idx}:?"          -- not produced by `fin` / `reset` / `new` / `fromBuf`
+        | .fin none => s!"{idx}:F:-"
+        | .fin (some e) => s!"{idx}:F:{showErr e}"
+        | .reset n => s!"{idx}:R:{n}"
+        | .new => s!"{idx}:N"
+        | .fromBuf => s!"{idx}:B"
       let rec go (d : Dec) (idx : Nat) (acc : List String) (cov : Array Nat) :
           List String → Option (List String) × Array Nat
         | [] => (some acc.reverse, cov)
         | "F" :: rest =>
-          let (d', e) := d.finalize
-          let s := match e with | none => s!"{idx}:F:-" | some e => s!"{idx}:F:{showErr e}"
-          go d' idx (s :: acc) cov rest
+          let (d', o) := d.step .fin
+          go d' idx (opTok idx o :: acc) cov rest
         | "R" :: rest =>
-          let (d', n) := d.reset
-          go d' idx (s!"{idx}:R:{n}" :: acc) cov rest
+          let (d', o) := d.step .reset
+          go d' idx (opTok idx o :: acc) cov rest
         | "N" :: rest =>
           -- `Decoder::new()`: replace the decoder by a new one
-          go (Dec.fresh cap) idx (s!"{idx}:N" :: acc) cov rest
+          let (d', o) := d.step .new
+          go d' idx (opTok idx o :: acc) cov rest
         | tok :: rest =>
           if tok.startsWith "B" then
             -- `Decoder::from_buf(buf)` with a buffer that already holds the given bytes
             match parseBytes (tok.drop 1).toString with
             | none => (none, cov)
-            | some bs => go (Dec.fromBuf { cap := cap, rdata := bs.reverse }) idx (s!"{idx}:B" :: acc) cov rest
+            | some bs =>
+              let (d', o) := d.step (.fromBuf bs)
+              go d' idx (opTok idx o :: acc) cov rest
           else
           match parseBytes tok with
           | none => (none, cov)
@@ -355,6 +367,7 @@ def parseEvents (toks : List String) : Option (List Ev) :=
     if t = "W" then some (acc ++ [Ev.wouldBlock])
     else if t = "I" then some (acc ++ [Ev.interrupted])
     else if t = "O" then some (acc ++ [Ev.other])
+    else if t = "E" then some (acc ++ [Ev.eof])
     else (parseBytes t).map fun bs => acc ++ bs.map Ev.byte) []
 
 def parseCallChar : Char → Option Rdr.Call
